@@ -327,7 +327,7 @@ class C08(Prop):
         gapkind = rng.choice(["zero", "small", "mixed", "mixed", "long"])
         lines = []
         for _ in range(nlines):
-            gap = {"zero": 0, "small": rng.choice([1, 2, 5]), "long": rng.choice([1000, 2500, 60000])}.get(
+            gap = {"zero": 0, "small": rng.choice([1, 2, 5]), "long": rng.choice([1000, 2500, 60000, 86400000, 90000001])}.get(
                 gapkind, rng.choice([0, 1, 7, 50, 300, 1000]))
             lines.append({"gap": gap, "gap_samples": rng.choice([0, 0, 1, 2, 3]) if gap > 0 else 0,
                           "moves": rng.choice([0, 1, 2, 2])})
@@ -696,7 +696,8 @@ class C08(Prop):
             log, logkeep, impl = env["logs"][lkey]
             relation.add("history:same-log-object")
         else:
-            path = env["tmp"] / f"LaserLog_synthetic_{index}.csv"
+            # one file name for all calls of a history: a log exported again to the same place is read again
+            path = env["tmp"] / "LaserLog_synthetic.csv"
             gen_nwi.write_log(path, rows, base, eol="\r\n" if text["eol"] == "crlf" else "\n", bom=text["bom"],
                               final_eol=text["final_eol"])
             via = case["via"]
@@ -711,7 +712,11 @@ class C08(Prop):
                 log = None
                 impl = {"raises": type(e).__name__, "msg": str(e)[:200]}
             logkeep = log.copy() if isinstance(log, np.ndarray) else None
-            env["logs"][lkey] = (log, logkeep, impl)
+            if isinstance(log, np.ndarray):                    # a path stands for whatever the file holds when it is read
+                env["logs"][lkey] = (log, logkeep, impl)
+            elif index > 0:
+                relation.add("history:log-file-" + ("unchanged" if env.get("text") == lkey else "rewritten"))
+            env["text"] = lkey
         first = min(selpat) if selpat else None            # the spot size string the import reads
         spotstr = None if first is None else tuple(acq["patterns"][first][k] for k in ("sxu", "syu", "circular"))
         if index > 0:
